@@ -45,3 +45,22 @@ pub fn run_packer_segments<S: Open>(
     indexer.write().unwrap().finalize()?;
     Ok(())
 }
+
+/// `LocalDestination::set_times` on `file` below `dir` with the given jiff timestamp
+/// (`second`, `subsec_nanosecond`: both carry the sign) as mtime (atime unset = mtime).
+#[cfg(not(windows))]
+pub fn set_times(dir: &str, file: &str, second: i64, subsec_nanosecond: i32) -> RusticResult<()> {
+    use crate::{
+        backend::{local_destination::LocalDestination, node::Metadata},
+        error::{ErrorKind, RusticError},
+    };
+    let mtime = jiff::Timestamp::new(second, subsec_nanosecond)
+        .map_err(|err| RusticError::with_source(ErrorKind::Internal, "timestamp out of range", err))?;
+    let dest = LocalDestination::new(dir, true, false)?;
+    let meta = Metadata {
+        mtime: Some(mtime),
+        ..Default::default()
+    };
+    dest.set_times(file, &meta)
+        .map_err(|err| RusticError::with_source(ErrorKind::Internal, "set_times failed", err))
+}
